@@ -85,7 +85,7 @@ MV_RULES = [
     (r"std::vector<ompl::base::State \*> stateList;", "sl_n = 0;", 0), (r"ss_\.discreteGeodesic\(s1, s2, false, &stateList\)", "DISCRETE_GEODESIC_LIST()", 0), (r"ss_\.discreteGeodesic\(s1, s2, false\)", "DISCRETE_GEODESIC_NOLIST()", 0),
     (r"stateList\.empty\(\)", "(sl_n == 0)", 0), (r"stateList\.size\(\)", "sl_n", 0), (r"stateList\.back\(\)", "SL_AT(sl_n - 1)", 0), (r"stateList\[([^\]]+)\]", r"SL_AT(\1)", 0),
     (r"lastValid\.first != nullptr", "LV_FIRST != NIL", 0), (r"lastValid\.first", "LV_FIRST", 0), (r"lastValid\.second", "LV_SECOND", 0),
-    (r"ss_\.copyState\(", "COPYSTATE(", 0), (r"ss_\.distance\(", "DIST(", 0), (r"ss_\.freeState\(", "FREESTATE(", 0), (r"ss_\.getConstraint\(\)->isSatisfied\(s2\)", "IS_SATISFIED(s2)", 0), (r"std::size_t", "size_t", 0),
+    (r"ss_\.copyState\(", "COPYSTATE(", 0), (r"ss_\.distance\(", "DIST(", 0), (r"ss_\.freeState\(", "FREESTATE(", 0), (r"ss_\.getConstraint\(\)->isSatisfied\((\w+)\)", r"IS_SATISFIED(\1)", 0), (r"std::size_t", "size_t", 0),
 ]
 MV_SRC = [dict(name="checkMotion", file=CSS, sig=r"bool ompl::base::ConstrainedMotionValidator::checkMotion\(const State \*s1, const State \*s2\) const", rules=MV_RULES, loops={}),
           dict(name="checkMotion_lv", file=CSS, sig=r"bool ompl::base::ConstrainedMotionValidator::checkMotion\(const State \*s1, const State \*s2,\s*std::pair<State \*, double> &lastValid\) const", rules=MV_RULES, loops={"allow_uncontracted": True})]
